@@ -41,6 +41,8 @@ Record c15_static := {
   cs_sand : bool; cs_n : nat; cs_gw : float; cs_grw0 : float;
   (* per horizon: texture, LD, Corg, stone fraction, UKT, (FKA, WP, GPV) of the soil file (percent; 0 = column empty) *)
   cs_hz : list (texture * Z * float * float * Z * (float * float * float));
+  cs_ptf : Z;                                      (* the pedotransfer function selected (0 = none) *)
+  cs_frac : list (float * float * float);          (* per horizon: sand, silt, clay (percent) as the soil FILE gives them *)
   cs_wb : list float; cs_wmb : list float; cs_pb : list float; cs_wnb : list float;   (* the backups Input saved *)
 }.
 
@@ -66,8 +68,15 @@ Definition base_of (rows : tables) (s : c15_static) : option (params (T:=float) 
              | Some hz => Some (file_params (cs_n s) hz (cs_gw s), file_cappar hz)
              | None => None
              end
-  | _ => Some (backup_of s (calc_wred (cs_sand s) (PrimFloat.mul (nth 0 (cs_wmb s) PrimFloat.zero) (F.of_Z 100))
-                                      (PrimFloat.mul (nth 0 (cs_wb s) PrimFloat.zero) (F.of_Z 100))), true)
+  | _ =>
+      (* input.go:250-270: PTF k on (Corg, clay, silt | sand) of every horizon, pore volume GPV/100 from the file, WRED from
+         the first layer's fractions * 100 *)
+      let ls := layers (cs_n s)
+                  (map (fun x : (texture * Z * float * float * Z * (float * float * float)) * (float * float * float) =>
+                          let '((_, _, c, _, ukt, (_, _, gpv)), (sand, silt, clay)) := x in
+                          (route_ptf (cs_ptf s) c clay silt sand gpv, ukt))
+                       (combine (cs_hz s) (cs_frac s))) in
+      Some (params_of ls (match ls with p :: _ => wred_fraction (cs_sand s) p | [] => PrimFloat.zero end), true)
   end.
 
 (* one observed day: (initial?, GRW, W, WMIN, PORGES, WNOR, WRED).  Result bits: 1-16 arrays/WRED of the day,
